@@ -24,7 +24,7 @@ Definition cerr_eqb (a b : cerr) : bool :=
   | EDuplicateName x, EDuplicateName y | EDuplicateModule x, EDuplicateModule y
   | EInvalidJump x, EInvalidJump y | EBadFunctionName x, EBadFunctionName y
   | EBadImport x, EBadImport y | EAmbigousImport x, EAmbigousImport y => str_eqb x y
-  | ESuperLimitReached, ESuperLimitReached => true
+  | ESuperLimitReached, ESuperLimitReached | ETooManyUpvalues, ETooManyUpvalues => true
   | _, _ => false
   end.
 
